@@ -910,11 +910,22 @@ func (fc *funcContext) delegatedCall(expr *ast.CallExpr) (callable *expression, 
 	// Since some builtins or js.Object methods may not transpile into
 	// callable expressions, we need to wrap then in a proxy lambda in order
 	// to push them onto the deferral stack.
-	vars := make([]string, len(expr.Args))
-	callArgs := make([]ast.Expr, len(expr.Args))
 	ellipsis := expr.Ellipsis
+	nargs := len(expr.Args)
+	if isJs && sig.Sig.Variadic() && !ellipsis.IsValid() {
+		// translateArgs has packed the variadic arguments into a single slice, so
+		// the proxy lambda receives one value per parameter (not one per source
+		// argument) and has to pass the slice on as `args...`.
+		nargs = len(args)
+		ellipsis = expr.Rparen
+		if !ellipsis.IsValid() {
+			ellipsis = token.Pos(1)
+		}
+	}
+	vars := make([]string, nargs)
+	callArgs := make([]ast.Expr, nargs)
 
-	for i := range expr.Args {
+	for i := range vars {
 		v := fc.newLocalVariable("_arg")
 		vars[i] = v
 		// Subtle: the proxy lambda argument needs to be assigned with the type
@@ -925,7 +936,7 @@ func (fc *funcContext) delegatedCall(expr *ast.CallExpr) (callable *expression, 
 	wrapper := &ast.CallExpr{
 		Fun:      expr.Fun,
 		Args:     callArgs,
-		Ellipsis: expr.Ellipsis,
+		Ellipsis: ellipsis,
 	}
 	callable = fc.formatExpr("function(%s) { %e; }", strings.Join(vars, ", "), wrapper)
 	arglist = fc.formatExpr("[%s]", strings.Join(args, ", "))
